@@ -54,7 +54,7 @@ manifest = {
     }],
     "checks": checks,
     "not_applicable": [{"property_id": p, "reason": NA[p]} for p in sorted(NA)],
-    "notes": "All claims are level 'other': structural necessary conditions decided statically on /repo's current source; see DESIGN.md. Genuine defects repaired by fix: commits in /repo are recorded in known_findings.json (status fixed); KF-2 is a known finding under C06.",
+    "notes": "All claims are level 'other': structural necessary conditions decided statically on /repo's current source; see DESIGN.md. Genuine defects repaired by fix: commits in /repo are recorded in known_findings.json (status fixed); KF-2 (C06), KF-3a/b and KF-4 (C03) are known findings. No property is listed as not applicable: C11 is claimed for its progress-shape clauses only (see its level text).",
 }
 json.dump(manifest, open(os.path.join(HERE, "MANIFEST.json"), "w"), indent=1)
 print("claimed:", sorted(CLAIMED), "not_applicable:", sorted(NA))
